@@ -372,6 +372,7 @@ func checkMarshalRoot(r *Run, o *simObj, what string) {
 
 // checkMarshalText verifies marshalled text: valid JSON, same document, fixed point.
 func checkMarshalText(r *Run, out []byte, model []*MV, roots bool, what string) {
+	r.hold(what, out)
 	var res RefResult
 	if roots {
 		// roots separated by newlines; each line must be valid JSON by encoding/json too
@@ -683,6 +684,21 @@ func opSet(r *Run, o *simObj, what string) {
 		return
 	}
 	pos := poss[c.Intn("setpos", len(poss))]
+	if len(poss) > 5000 && c.Intn("setcontainer", 2) == 0 {
+		// big documents: scalars outnumber containers by far; aim at a (non-root) container half of the time
+		var cs []Pos
+		for _, p := range allContainers(o.model) {
+			if len(p) > 1 {
+				cs = append(cs, p)
+				if len(cs) >= 64 {
+					break
+				}
+			}
+		}
+		if len(cs) > 0 {
+			pos = cs[c.Intn("setcontpos", len(cs))]
+		}
+	}
 	cur := getAt(o.model, pos)
 	var it simdjson.Iter
 	var err error
@@ -1054,11 +1070,11 @@ func RunHistEdit(r *Run, profile string) {
 	if r.thorough() {
 		hugeOdds = 25
 	}
-	huge := profile == "delete" && c.Intn("hugedoc", hugeOdds) == 0
+	huge := (profile == "delete" || profile == "set") && c.Intn("hugedoc", hugeOdds) == 0
 	if huge {
 		// tapes beyond the serializer's 64 KiB tag/value blocks: gaps may straddle a flush boundary
 		cfg.ND = false
-		doc = GenBulkDoc(c, 150000+c.Intn("hugesz", 250000), []int{FamDenseArrays, FamZeros, FamNumbers, FamStrings, FamWide}).B
+		doc = GenBulkDoc(c, 150000+c.Intn("hugesz", 250000), []int{FamDenseArrays, FamZeros, FamNumbers, FamStrings, FamWide, FamBigMembers, FamBigMembers, FamBigMembers}).B
 		r.stat("huge_tapes", 1)
 	}
 	r.Res.Inputs["doc"] = b64(doc)
@@ -1156,6 +1172,9 @@ func RunHistEdit(r *Run, profile string) {
 		if (profile == "marshal" || profile == "delete") && !r.failed() && !huge {
 			// C14 lists MarshalJSON of Iter, Array and Elements among the APIs that must agree after deletions
 			checkMarshalInner(r, o, fmt.Sprintf("after %s", what))
+		}
+		if !r.failed() {
+			r.checkHeld() // texts returned earlier in this step are still what they were
 		}
 	}
 	r.Res.Sample["ops"] = ops
